@@ -47,6 +47,7 @@ pub struct CaseCtx {
     pub sched_hash: u64,
     pub log_hashes: Vec<u64>,
     pub logs: Vec<Vec<String>>,
+    pub panics: Vec<String>,
 }
 
 impl CaseCtx {
@@ -70,6 +71,7 @@ impl CaseCtx {
             sched_hash: 0,
             log_hashes: vec![],
             logs: vec![],
+            panics: vec![],
         }
     }
 
@@ -131,6 +133,11 @@ impl CaseCtx {
         self.log_hashes.push(rec.log_hash);
         if self.keep_log {
             self.logs.push(rec.log_lines.clone());
+        }
+        for p in &rec.panics {
+            if self.panics.len() < 5 {
+                self.panics.push(p.chars().take(300).collect());
+            }
         }
         if !rec.panics.is_empty() {
             *self.counters.entry("engine.panics".into()).or_default() += rec.panics.len() as u64;
